@@ -50,6 +50,11 @@ def lines(repo, read, find, report):
       ("c05_param_negate_is_not", ens, r"return !S::contains\(item\);", 1),
       ("c05_param_combine_is_or", ens, r"return TI1::contains\(item\) \|\|\s*TI2::contains\(item\);", 1),
       ("c05_param_emptyset_false_allset_true", ens, r"EmptySet<TA>::contains\(\[\[maybe_unused\]\] const Type& attribute\)\s*\{\s*return false;\s*\}.*?AllSet<TA>::contains\(\[\[maybe_unused\]\] const Type& attribute\)\s*\{\s*return true;\s*\}", 1),
+      ("c05_param_ibuild_adopts_communicator", itf, r"\{\s*communicator_=remoteIndices\.communicator\(\);\s*assert\(interfaces_\.empty\(\)\);", 1),
+      ("c05_param_bbuild_adopts_communicator", com, r"free\(\);\s*interfaces_=interface\.interfaces\(\);\s*communicator_=interface\.communicator\(\);", 2),
+      ("c05_param_sendrecv_on_own_communicator", com, r"MPI_BYTE, info->first, commTag_, communicator_,", 4),
+      ("c05_param_dt_build_adopts_remoteindices", com, r"\{\s*remoteIndices_ = &remoteIndices;\s*free\(\);", 1),
+      ("c05_param_dt_requests_on_remote_communicator", com, r"process->first, commTag_, this->remoteIndices_->communicator\(\), requests_\[index\]\+request\);", 2),
       ("c05_param_selection_default_initialised", sel, r"Selection\(\)\s*:\s*selected_\(\), size_\(0\), built_\(false\)", 1),
       ("c05_param_selection_filters_attribute", sel, r"if\(AttributeSet::contains\(index->local\(\)\.attribute\(\)\)\)\s*selected_\[entries\+\+\]= index->local\(\)\.local\(\);", 1),
     ]
